@@ -268,7 +268,9 @@ func (u *PacketUnderlay) RunEventLoop(ctx context.Context) error {
 						block:     seg.block,
 					}
 					if err := u.writeOneSegment(closeReq, addr); err != nil {
-						return fmt.Errorf("writeOneSegment() failed: %w", err)
+						// The reply can't be sent to this peer. That must
+						// not end the event loop of every other session.
+						log.Debugf("%v writeOneSegment() to %v failed: %v", u, addr, err)
 					}
 				}
 				continue
